@@ -1165,11 +1165,11 @@ def _c17(pid, tier, log):
         # the same with a plain `async fn` as the HTTP client (the blanket AsyncHttpClient impl for functions and closures):
         # a Send + Sync client whose future is Send must give a Send request future as well
         name2 = "c17-send-fn-" + snake(ty)
-        what2 = "the future of %s::request_async(&<async fn client>%s) is Send" % (ty, ", tokio::time::sleep, None" if len(rargs) > 1 else "")
+        what2 = "the future of %s::request_async(&<async fn client>%s) is Send" % (ty, ", <Send + !Sync sleep closure>, None" if len(rargs) > 1 else "")
         src2 = fill(template("c17_send_fn.rs"), NAME=name2, WHAT=what2,
                     PARAMS=", ".join(["id: oauth2::ClientId"] + sp + aparams),
                     SETTERS=chain, METHOD=m, ARGS=", ".join(args), UNWRAP=".unwrap()" if is_result(fn["ret"]) else "",
-                    TURBOFISH=turbofish, RARGS=", ".join("&my_http" if a == "&http" else a for a in rargs))
+                    TURBOFISH=turbofish, RARGS=", ".join({"&http": "&my_http", "tokio::time::sleep": "my_sleep"}.get(a, a) for a in rargs))
         probes.append(Probe(name2, src2, "pos", CODES, what2, meta={"family": "send-fn"}))
         rows[ty] = {"declared_in": rfile, "built_by": "Client::%s" % m, "request_async_args": rargs}
     ctl_neg = Probe("c17-control-rc", fill(template("c17_control.rs"), NAME="c17-control-rc", PTR="std::rc::Rc", EXPECT="REJECTED as non-Send"),
